@@ -124,7 +124,13 @@ CMP = {ast.Lt: "<", ast.LtE: "≤", ast.Gt: ">", ast.GtE: "≥", ast.Eq: "==", a
 CMPNAME = {ast.Lt: "lt", ast.LtE: "le", ast.Gt: "gt", ast.GtE: "ge", ast.Eq: "eq", ast.NotEq: "ne"}
 
 
+NAMES: Dict[str, str] = {}
+
+
 def expr(node: ast.AST) -> str:
+    txt = ast.unparse(node)
+    if txt in NAMES:
+        return NAMES[txt]
     if isinstance(node, ast.BoolOp):
         op = " || " if isinstance(node.op, ast.Or) else " && "
         return "(" + op.join(expr(v) for v in node.values) + ")"
@@ -299,6 +305,7 @@ def extract_consts(src: Path) -> str:
 
 def extract_guards(src: Path) -> str:
     out = ["/- GENERATED by tools/extract.py — comparison sites and expression-level functions — do not edit -/",
+           "import HC.Extracted.Consts",
            "namespace HC.Extracted.Guards",
            "inductive Cmp | lt | le | gt | ge | eq | ne\nderiving Repr, DecidableEq",
            "def Cmp.eval : Cmp → Nat → Nat → Bool\n  | .lt, a, b => decide (a < b)\n  | .le, a, b => decide (a ≤ b)\n  | .gt, a, b => decide (a > b)\n"
@@ -311,7 +318,6 @@ def extract_guards(src: Path) -> str:
         ("h11FinalStatusCmp", "protocol/h11.py", ("H11Protocol", "stream_send"), "status_code", "event.status_code"),
         ("h2KeepAliveCmp", "protocol/h2.py", ("H2Protocol", "_handle_events"), "keep_alive_max_requests", "self.keep_alive_requests"),
         ("bufferPushCmp", "protocol/h2.py", ("StreamBuffer", "push"), "BUFFER_HIGH_WATER", "len(self.buffer)"),
-        ("bufferPopCmp", "protocol/h2.py", ("StreamBuffer", "pop"), "BUFFER_LOW_WATER", None),
         ("asyncioRecycleCmp", "asyncio/worker_context.py", ("WorkerContext", "mark_request"), "max_requests", "self.requests"),
         ("trioRecycleCmp", "trio/worker_context.py", ("WorkerContext", "mark_request"), "max_requests", "self.requests"),
         ("wsgiBodyCmp", "app_wrappers.py", ("WSGIWrapper", "handle_http"), "max_body_size", "len(body)"),
@@ -333,15 +339,29 @@ def extract_guards(src: Path) -> str:
                 fail(f"guard {lean}", f"left operand is `{ltxt}`, expected `{left}`")
                 continue
             out.append(f"def {lean} : Cmp := .{CMPNAME[type(c.ops[0])]}   -- `{ast.unparse(c)}` in {rel}")
-            if lean == "bufferPopCmp":
-                which = {"len(data)": "onChunk", "len(self.buffer)": "onRemaining"}.get(ltxt)
-                if which is None:
-                    fail("guard bufferPopOperand", f"unrecognised operand `{ltxt}`")
-                else:
-                    out.append("inductive PopRelease | onChunk | onRemaining\nderiving Repr, DecidableEq")
-                    out.append(f"def bufferPopOperand : PopRelease := .{which}")
         except Exception as e:
             fail(f"guard {lean}", str(e))
+    # StreamBuffer.pop: the condition under which a waiting pusher is released (`await self._paused.set()`)
+    try:
+        fn = find_def(parse(src / "protocol/h2.py"), "StreamBuffer", "pop")
+        test = None
+        for n in ast.walk(fn):  # type: ignore
+            if isinstance(n, ast.If) and any("_paused.set" in ast.unparse(b) for b in n.body):
+                test = n.test
+        if test is None:
+            fail("bufferPopRelease", "no `if …: await self._paused.set()` in StreamBuffer.pop")
+        else:
+            NAMES.clear()
+            NAMES.update({"len(data)": "chunk", "len(self.buffer)": "remaining", "BUFFER_LOW_WATER": "HC.Extracted.Consts.h2_BUFFER_LOW_WATER",
+                          "BUFFER_HIGH_WATER": "HC.Extracted.Consts.h2_BUFFER_HIGH_WATER"})
+            out.append(f"def bufferPopRelease (chunk remaining : Nat) : Bool :=\n  {expr(test)}   -- `{ast.unparse(test)}`")
+            NAMES.clear()
+        # the popped length: `length = min(len(self.buffer), max_length)`
+        mins = [n for n in ast.walk(fn) if isinstance(n, ast.Assign) and ast.unparse(n.value).replace(" ", "") == "min(len(self.buffer),max_length)"]  # type: ignore
+        if not mins:
+            fail("bufferPopLength", "`length = min(len(self.buffer), max_length)` not found")
+    except Exception as e:
+        fail("bufferPopRelease", str(e))
     # suppress_body
     try:
         fn = find_def(parse(src / "utils.py"), "suppress_body")
